@@ -92,6 +92,15 @@ def run(ck: Checker):
             if me == 'put' and r is not None and sc.canon(r) == BUF and c.args and isinstance(c.args[0], ast.Tuple) and len(c.args[0].elts) == 2 and isinstance(c.args[0].elts[1], ast.Name):
                 clean_value(ck, 'C09-1', f, cfg, g, n, c.args[0].elts[1].id, 'collector → batch buffer')
                 n1 += 1
+            elif me == 'put' and r is not None and sc.canon(r) == BUF and c.args and isinstance(c.args[0], ast.Name):
+                # a whole message put on the buffer: fine for the end marker (known to be None here); a request put as it
+                # was dequeued by-passes the value preprocess() returned for it
+                zv = c.args[0].id
+                S_ = g.at(n.id)
+                if not all(('none', zv) in d for d in S_):
+                    pre = [k for k in cfg.nodes if isinstance(k.ast, ast.Assign) and isinstance(k.ast.value, ast.Call) and dotted(k.ast.value.func) in ('preprocess', 'self.preprocess')]
+                    ck.ob('C09-1', f, c, False, f'`{norm_text(c)}` puts the message as it was dequeued on the batch buffer' + (f': the value that preprocess() returned for it (`{norm_text(pre[0].ast.targets[0])}`, L{pre[0].lineno}) is discarded and call() receives raw, unvalidated requests' if pre else ''))
+                    n1 += 1
     ck.need(n1 >= 1, f'{f.key}: no put of (uid, x) on the batch buffer')
     preprocess_args_clean(ck, 'C09-1', f, cfg, g)
     f = mod.func('Worker._start_single.get_input')
@@ -139,6 +148,31 @@ def run(ck: Checker):
     _c04.check_wrap_arguments(ck, 'C09-10', ck.repo.func(WORKER, 'Worker._build_input_batches'))
     # ---------------------------------------------------------------- C09-3
     check_one_destination(ck, 'C09-3')
+    # ---------------------------------------------------------------- C09-11
+    ck.rule('C09-11', 'a batch reaches call() as a list (the documented type: call() may pad it in place, concatenate it with a list, or dispatch on isinstance(x, list)): every definition of the value that the batch input generator yields is a list display, a list comprehension or a list(...) call (ORIGIN)')
+    from mpsa.flow import reaching_defs as _rd
+
+    f11 = mod.func('Worker._start_batch.get_input')
+    cfg11 = build_cfg(f11, ck.repo, make_fallible(Scope(f11), iters=set(), calls=set()))
+    ck.analysed_func(f11, cfg11)
+    ys11 = [n for n in cfg11.nodes if n.extra.get('yield')]
+    ck.need(ys11, f'{f11.key}: no yield found')
+    for n in ys11:
+        yv = [k.value for k in walk_shallow(n.ast) if isinstance(k, ast.Yield)][0]
+
+        def is_list(e):
+            return isinstance(e, (ast.List, ast.ListComp)) or (isinstance(e, ast.Call) and dotted(e.func) in ('list', 'sorted'))
+
+        probs11 = []
+        if isinstance(yv, ast.Name):
+            for i in _rd(cfg11, yv.id, start=cfg11.entry).get(n.id, frozenset()):
+                d = cfg11.nodes[i].ast
+                if isinstance(d, ast.Assign) and len(d.targets) == 1 and isinstance(d.targets[0], ast.Name) and is_list(d.value):
+                    continue
+                probs11.append(f'L{cfg11.nodes[i].lineno}: `{norm_text(d)[:60]}` binds `{yv.id}` to something that is not made as a list (unpacking `zip(*...)` gives tuples): call() receives a tuple')
+        elif yv is not None and not is_list(yv):
+            probs11.append(f'`{norm_text(yv)[:50]}` is not made as a list')
+        ck.ob('C09-11', f11, n.ast, not probs11, '; '.join(probs11) if probs11 else 'the yielded batch is made as a list on every path')
     ck.rule('C09-9', 'the preprocess hook is looked up on the worker object when the service loop starts, not cached by Worker.__init__ (ORIGIN)', minimum=2)
     check_preprocess_lookup(ck, 'C09-9')
     ck.rule('C09-8', 'the batch buffer can hold a whole batch: it is created with at least `batch_size` slots (a smaller buffer makes the collector wait for room while call() waits for the batch to fill: every batch is cut short at the buffer size) (LINEAR)')
